@@ -18,6 +18,7 @@ import (
 	"strconv"
 	"sync"
 	"testing"
+	"testing/synctest"
 	"time"
 
 	"pgregory.net/rapid"
@@ -48,6 +49,7 @@ type c10sStep struct {
 	Pad  int    `json:"pad"` // -1: no PADDED flag; 0..255: padding bytes (plus the length byte)
 	End  bool   `json:"end,omitempty"`
 	Rel  string `json:"rel,omitempty"` // C11 only: frame length relative to the windows
+	ND   bool   `json:"nd,omitempty"`  // the fake client does not read the wire after this step
 }
 
 type c10sCase struct {
@@ -58,6 +60,10 @@ type c10sCase struct {
 	ShutdownAt   int          `json:"shutdown_at"` // graceful shutdown before this step (-1: never)
 	ReleaseFirst bool         `json:"release_first"`
 	Probe        bool         `json:"probe"`
+	// ReadBuf bounds the pipe towards the fake client (0 = unlimited): once the server
+	// has written that many unread bytes its frame writer blocks and later frames
+	// (RST_STREAM, WINDOW_UPDATE, ...) stay queued until the client reads again.
+	ReadBuf int `json:"read_buf,omitempty"`
 }
 
 // effective configuration as documented for Server.MaxUploadBufferPer{Connection,Stream}
@@ -323,7 +329,21 @@ func (x *c10sSess) drain() error {
 	}
 }
 
-func (x *c10sSess) openStream(st *c10sSt) error {
+// settle follows a scripted client action: normally the wire is drained to quiescence;
+// after a no-drain step the client only waits for quiescence without reading, so
+// whatever the server could not write (bounded pipe) stays queued inside the server.
+// The peer-view windows then lag behind (they only count WINDOW_UPDATEs actually
+// read), which keeps every DATA frame within what the server advertised.
+func (x *c10sSess) settle(nd bool) error {
+	if nd {
+		synctest.Wait()
+		x.flowRST, x.sawWU = map[uint32]bool{}, false
+		return nil
+	}
+	return x.drain()
+}
+
+func (x *c10sSess) openStream(st *c10sSt, nd bool) error {
 	st.id = x.nextID
 	x.nextID += 2
 	st.opened = true
@@ -341,13 +361,16 @@ func (x *c10sSess) openStream(st *c10sSt) error {
 	}); err != nil {
 		return fmt.Errorf("harness: HEADERS: %v", err)
 	}
-	return x.drain()
+	return x.settle(nd)
 }
 
 // sendData writes one DATA frame with n payload bytes and the given padding, applies
 // the window bookkeeping and (in verdict mode) checks the server's reaction.
-func (x *c10sSess) sendData(st *c10sSt, n, pad int, end bool) error {
+func (x *c10sSess) sendData(st *c10sSt, n, pad int, end, nd bool) error {
 	open := st.open()
+	if x.s.sc.VPSrvResetQueued(st.id) { // diagnostics only (coverage class)
+		x.class("data-while-rst-stream-still-queued")
+	}
 	payload := make([]byte, 0, n+257)
 	var flags Flags
 	if pad >= 0 {
@@ -422,6 +445,10 @@ func (x *c10sSess) sendData(st *c10sSt, n, pad int, end bool) error {
 				}
 			}
 		}
+	}
+	if nd {
+		x.class("no-drain-data")
+		return x.settle(true)
 	}
 	if err := x.drain(); err != nil {
 		return err
@@ -553,7 +580,7 @@ func (x *c10sSess) run() error {
 	if m.verdict {
 		maxRead = 1<<24 - 1
 	}
-	x.s = vpNewSrv(vpSrvOpts{UploadPerConn: c.ConnWin, UploadPerStream: c.StreamWin, MaxReadFrame: maxRead}, http.HandlerFunc(x.handle))
+	x.s = vpNewSrv(vpSrvOpts{UploadPerConn: c.ConnWin, UploadPerStream: c.StreamWin, MaxReadFrame: maxRead, ReadBuf: c.ReadBuf}, http.HandlerFunc(x.handle))
 	defer func() {
 		if !x.fin {
 			x.fin = true
@@ -597,7 +624,7 @@ func (x *c10sSess) run() error {
 		switch sp.Kind {
 		case "data":
 			if !st.opened {
-				if err := x.openStream(st); err != nil {
+				if err := x.openStream(st, sp.ND); err != nil {
 					return err
 				}
 				if x.dead() {
@@ -616,7 +643,7 @@ func (x *c10sSess) run() error {
 				x.class("step-skipped-no-window")
 				continue
 			}
-			if err := x.sendData(st, nb, pad, end); err != nil {
+			if err := x.sendData(st, nb, pad, end, sp.ND); err != nil {
 				return err
 			}
 		case "rst":
@@ -628,7 +655,7 @@ func (x *c10sSess) run() error {
 			}
 			st.cliReset = true
 			x.s.fr.WriteRSTStream(st.id, ErrCodeCancel)
-			if err := x.drain(); err != nil {
+			if err := x.settle(sp.ND); err != nil {
 				return err
 			}
 			if err := x.noFlowErr("RST_STREAM from the client"); err != nil {
@@ -639,7 +666,7 @@ func (x *c10sSess) run() error {
 			case x.rel[sp.S] <- struct{}{}:
 			default:
 			}
-			if err := x.drain(); err != nil {
+			if err := x.settle(sp.ND); err != nil {
 				return err
 			}
 			if err := x.noFlowErr("a handler was released"); err != nil {
@@ -647,7 +674,7 @@ func (x *c10sSess) run() error {
 			}
 		case "ping":
 			x.s.fr.WritePing(false, [8]byte{'v', 'p'})
-			if err := x.drain(); err != nil {
+			if err := x.settle(sp.ND); err != nil {
 				return err
 			}
 		}
@@ -684,6 +711,9 @@ func (x *c10sSess) run() error {
 	}
 	if x.didShutdown {
 		x.class("graceful-shutdown")
+	}
+	if x.c.ReadBuf > 0 {
+		x.class("bounded-client-read-buffer")
 	}
 	if x.dead() {
 		x.class("conn-ended-early")
@@ -789,11 +819,11 @@ func c10sEnd(x *c10sSess) error {
 	exact := false
 	if x.c.Probe && x.initWin >= c10sProbeLen && x.connView >= c10sProbeLen && x.maxFrame >= c10sProbeLen {
 		st := x.sts[len(x.c.Streams)]
-		if err := x.openStream(st); err != nil {
+		if err := x.openStream(st, false); err != nil {
 			return err
 		}
 		if !x.dead() {
-			if err := x.sendData(st, c10sProbeLen, -1, true); err != nil {
+			if err := x.sendData(st, c10sProbeLen, -1, true, false); err != nil {
 				return err
 			}
 		}
@@ -908,13 +938,24 @@ func c10sGen(t *rapid.T) c10sCase {
 	nmin := rapid.OneOf(rapid.IntRange(5, 20), rapid.IntRange(5, 60)).Draw(t, "nstreams")
 	c.Streams = rapid.SliceOfN(c10sStreamGen(true), nmin, 60).Draw(t, "streams")
 	n := len(c.Streams)
+	// A bounded pipe towards the client plus runs of steps after which the client does
+	// not read: the server's writer blocks, so RST_STREAM / WINDOW_UPDATE frames stay
+	// queued while more DATA arrives.
+	c.ReadBuf = rapid.SampledFrom([]int{0, 16, 16, 64, 256}).Draw(t, "read_buf")
+	ndMode := rapid.IntRange(0, 2).Draw(t, "nd_mode") // never / half of the steps / most steps
 	step := rapid.Custom(func(t *rapid.T) c10sStep {
-		kind := rapid.SampledFrom([]string{"data", "data", "data", "data", "data", "data", "data", "data", "rst", "release", "release", "release", "ping"}).Draw(t, "kind")
+		kind := rapid.SampledFrom([]string{"data", "data", "data", "data", "data", "data", "data", "data", "rst", "release", "release", "release", "ping", "ping"}).Draw(t, "kind")
 		sp := c10sStep{Kind: kind, S: rapid.IntRange(0, 59).Draw(t, "s"), Pad: -1}
 		if kind == "data" {
 			sp.N = c10sSizes.Draw(t, "n")
 			sp.Pad = c10sPadGen().Draw(t, "pad")
 			sp.End = rapid.IntRange(0, 3).Draw(t, "end") == 0
+		}
+		switch ndMode {
+		case 1:
+			sp.ND = rapid.Bool().Draw(t, "nd")
+		case 2:
+			sp.ND = rapid.IntRange(0, 7).Draw(t, "nd") != 0
 		}
 		return sp
 	})
